@@ -131,6 +131,11 @@ def run_shard(spec):
             elif "if_not_contains(abc)" in kind and rnd.random() < 0.6:
                 g._numeric_prefix = False
                 q = g.action(0, 0, True) + "/attr_low/" + g.query(0, first=False, max_len=3)
+            elif rnd.random() < 0.1:
+                # results of every built-in kind (each is filed by its own state type)
+                g._numeric_prefix = False
+                q = "mk-%s-%d/%s" % (rnd.choice(["list", "dict", "udict", "nested", "df", "bytes", "text", "none", "float", "tuple", "pairs",
+                                                  "matrix", "lod", "tlist"]), rnd.choice([1, 2, 3]), g.query(0, first=False, max_len=2))
             elif rnd.random() < 0.12:
                 q = rnd.choice(["res.txt", "dir/n.json", "-R/dir/sub/b.bin"]) + "/-/" + g.query(0, first=False, max_len=3)
             else:
